@@ -35,6 +35,9 @@ def contracts_part(ctx):
     cs = [c for c in REGISTRY.values() if c.__class__.__module__ == 'contracts.simulation' and
           c.qualname == 'Simulation.step']
     prun.run_contracts(ctx, cs, 'contracts.simulation')
+    import contracts.faststep   # noqa: F401
+    cs = [c for c in REGISTRY.values() if c.__class__.__module__ == 'contracts.faststep']
+    prun.run_contracts(ctx, cs, 'contracts.faststep')
     for vc in CT.inspect_is_last_trace_entry():
         s = z3.Solver()
         s.set('timeout', 20000)
@@ -102,7 +105,7 @@ def run(ctx):
                           'illegal_inputs': 'bitwidths 1,4,63,64,65,130 x {0,2^bw-1,2^(bw-1),2^bw,2^bw+5,-1,-2^bw,2^(bw+64)}'}[fn],
                    sample=[t for t in tasks if t['fn'] == fn][0])
     return ctx.finish('other', './check C15', ['z3', 'pyvc', 'CPython'],
-                      'P: Simulation.step input validation and trace hand-over, SimulationTrace.add_step / '
+                      'P: Simulation.step and FastSimulation.step input validation and trace hand-over, SimulationTrace.add_step / '
                       'add_fast_step (any number of traced names), Simulation.inspect, lemma inspect == last '
                       'trace entry; bounded (level B): executable contracts on enumerated designs / inputs for '
                       'the three simulators, printers, step_multiple, assertions')
